@@ -1537,7 +1537,7 @@ func execVerifyMsg(f []string) vlib.Res {
 	}); o != "" {
 		return vlib.Res{Impl: "panic", Oracle: o, Tags: "nt,panic"}
 	}
-	return vlib.Res{Impl: fmt.Sprintf("ok=%s w=%s:%d", vlib.B(got), wres, gov.begins), Oracle: or,
+	return vlib.Res{Impl: fmt.Sprintf("ok=%s err=%s w=%s:%d", vlib.B(got), errEnum(err), wres, gov.begins), Oracle: or,
 		Tags: joinTags("nt", tag, tt, "err:"+errEnum(err), fmt.Sprintf("sets%d", min(len(need), 3)), "gov:"+wres)}
 }
 
